@@ -726,7 +726,10 @@ def c13_doc(p):
     tpl += [g('a_i'), g('a_t', 'nb'), "A\n"]
     for i in range(p['b']):
         tpl += [g(f'bl{i}'), "\n"]
-    tpl += [g('tag_i'), O('m', RX), "\n", g('c_i'), "x", g('c_t', 'nb'), "\n", g('ctag_i'), C('m'), "\n"]
+    tpl += [g('tag_i'), O('m', RX), "\n", g('c_i'), "x", g('c_t', 'nb'), "\n"]
+    if p.get('inner'):   # a ready block nested in the ready block
+        tpl += [g('in_i'), O('t', RT), "\n", "w\n", g('cin_i'), C('t'), "\n", "v\n"]
+    tpl += [g('ctag_i'), C('m'), "\n"]
     for i in range(p['a']):
         tpl += [g(f'al{i}'), "\n"]
     if p.get('second'):
@@ -744,7 +747,7 @@ def c13_doc(p):
     return tpl
 
 
-@harness('c13_block', covers=['no-blank-lines-around', 'blank-before-and-after', 'blank-only-before', 'whitespace-only-blank-line', 'two-blocks'])
+@harness('c13_block', covers=['no-blank-lines-around', 'blank-before-and-after', 'blank-only-before', 'whitespace-only-blank-line', 'two-blocks', 'nested-ready-block'])
 def c13_block(ctx, p):
     ds, de = [60], [62]
     cfg = cfg_from(p)
@@ -758,6 +761,8 @@ def c13_block(ctx, p):
         ctx.cover('whitespace-only-blank-line')
     if p.get('second'):
         ctx.cover('two-blocks')
+    if p.get('inner'):
+        ctx.cover('nested-ready-block')
     out = ctx.impl.clean(src, ds, de, cfg)
     # 1. surviving non-blank lines, byte for byte incl. indentation, in order, nothing else non-blank
     in_lines = []
@@ -803,6 +808,7 @@ def c13_jobs(tier, seed):
     for a, b, a2, b2 in [(0, 0, 0, 0), (1, 1, 1, 1), (0, 1, 1, 0), (2, 0, 0, 2), (1, 2, 2, 1)]:
         J(f'two blocks b={b} a={a} b2={b2} a2={a2}', a=a, b=b, a2=a2, b2=b2, second=1, holes=dict(tag_i=1, tag2_i=1, m_i=2, al0=1))
     for a, b in [(0, 0), (1, 1), (2, 1), (0, 2)]:
+        J(f'nested ready block b={b} a={a}', a=a, b=b, inner=1, holes=dict(tag_i=1, in_i=2, cin_i=1))
         J(f'pending parent b={b} a={a}', a=a, b=b, parent=1, holes=dict(tag_i=2, a_i=2, z_i=1))
         J(f'no final newline b={b} a={a}', a=a, b=b, final_nl=0, holes=dict(z_t=2, z_i=1, al0=1 if a else 0))
     return jobs
